@@ -58,8 +58,33 @@ func c02TestFn(_ *transformctx.Ctx, s string, i int64, f float64, b bool, rest .
 	return fmt.Sprintf("%q|%d|%g|%t|%q", s, i, f, b, rest), nil
 }
 
+// c02FirstOf returns the first element of its array argument (or the argument itself), as a string.
+func c02FirstOf(_ *transformctx.Ctx, vs ...interface{}) (string, error) {
+	return c02FirstOfImpl(vs)
+}
+
+func c02FirstOfImpl(vs []interface{}) (string, error) {
+	for _, v := range vs {
+		switch x := v.(type) {
+		case nil:
+		case string:
+			return x, nil
+		case []interface{}:
+			for _, e := range x {
+				if s, ok := e.(string); ok {
+					return s, nil
+				}
+				return "", fmt.Errorf("firstof: element is %T", e)
+			}
+		default:
+			return "", fmt.Errorf("firstof: argument is %T", v)
+		}
+	}
+	return "", nil
+}
+
 var c02ImplFuncs = customfuncs.Merge(customfuncs.CommonCustomFuncs, v21.OmniV21CustomFuncs,
-	customfuncs.CustomFuncs{"testfn": c02TestFn})
+	customfuncs.CustomFuncs{"testfn": c02TestFn, "firstof": c02FirstOf})
 
 func strArgs(args []interface{}) ([]string, error) {
 	out := make([]string, len(args))
@@ -96,6 +121,9 @@ var c02RefFuncs = map[string]ref.RefFunc{
 	}},
 	"copy": {Params: nil, Call: func(n *idr.Node, a []interface{}) (interface{}, error) {
 		return idr.J2NodeToInterface(n, true), nil
+	}},
+	"firstof": {Params: []interface{}{nil}, Call: func(_ *idr.Node, a []interface{}) (interface{}, error) {
+		return c02FirstOfImpl(a)
 	}},
 	"testfn": {Params: []interface{}{"", int64(0), float64(0), false, ""}, Call: func(_ *idr.Node, a []interface{}) (interface{}, error) {
 		if len(a) < 4 {
@@ -633,6 +661,24 @@ func c02Enumerate(quick bool, visit func(label string, decls gd) bool) {
 			// the same declaration once inside an xpath_dynamic (where evaluation errors are swallowed) and once as a plain member
 			if !visit("C:dynamic-and-member", fo(gd{"object": gd{"a": gd{"xpath_dynamic": D.d}, "z": D.d}})) ||
 				!visit("C:dynamic-and-member", gd{"FINAL_OUTPUT": gd{"object": gd{"a": gd{"xpath_dynamic": gd{"template": "T"}}, "z": gd{"template": "T"}}}, "T": D.d}) {
+				return
+			}
+		}
+	}
+	// Level E: arrays (and objects) inside the subtree of an xpath_dynamic, directly, as a function's
+	// argument and through a template; alone and next to an identical function call outside (one cache)
+	for _, elemXP := range []string{"c", "a", "*", "a/a"} {
+		arr := gd{"array": []interface{}{gd{"xpath": elemXP}}}
+		call := gd{"custom_func": gd{"name": "firstof", "args": []interface{}{arr}}}
+		call2 := gd{"custom_func": gd{"name": "firstof", "args": []interface{}{gd{"const": ""}, arr}}}
+		for _, dyn := range []gd{call, call2} {
+			if !visit("E:array-under-xpath-dynamic", fo(gd{"object": gd{"v": gd{"xpath_dynamic": dyn}}})) ||
+				!visit("E:array-under-xpath-dynamic", fo(gd{"object": gd{"v": gd{"xpath_dynamic": dyn}, "w": dyn}})) ||
+				!visit("E:array-under-xpath-dynamic", fo(gd{"object": gd{"a0": dyn, "v": gd{"xpath_dynamic": dyn}}})) ||
+				!visit("E:array-under-xpath-dynamic", gd{"FINAL_OUTPUT": gd{"object": gd{"v": gd{"xpath_dynamic": gd{"template": "P"}}, "w": gd{"template": "P"}}}, "P": dyn}) ||
+				!visit("E:array-under-xpath-dynamic", fo(gd{"array": []interface{}{gd{"xpath_dynamic": dyn}, dyn}})) ||
+				!visit("E:array-under-xpath-dynamic", fo(gd{"object": gd{"v": gd{"xpath_dynamic": gd{"xpath_dynamic": dyn}}}})) ||
+				!visit("E:array-under-xpath-dynamic", fo(gd{"object": gd{"v": gd{"xpath_dynamic": dyn, "object": gd{"t": gd{"xpath": "."}, "u": arr}}}})) {
 				return
 			}
 		}
